@@ -56,6 +56,12 @@ var growthDims = []growthDim{
 		}},
 	{name: "text-comments", cmds: [][]string{{"text", "parse"}},
 		input: func(n int) string { return strings.Repeat("; a comment line\n", n) + "C[1]\n" }},
+	{name: "text-long-comment", cmds: [][]string{{"text", "parse"}, {"text", "conv", "syllable"}},
+		input: func(n int) string { return "; " + strings.Repeat("long line ", n) + "\nC[1]\n" }},
+	{name: "text-long-symbol", cmds: [][]string{{"text", "parse"}, {"text", "conv", "syllable"}},
+		input: func(n int) string { return "C" + strings.Repeat("mmmmmmmmmm", n) + "[1]\n" }},
+	{name: "text-long-metadata", cmds: [][]string{{"text", "parse"}, {"text", "conv", "syllable"}},
+		input: func(n int) string { return "C[1]{txt=" + strings.Repeat("la la la, ", 0) + strings.Repeat("la la la ", n) + "}\n" }},
 	{name: "text-rests", cmds: [][]string{{"text", "parse"}, {"text", "conv", "syllable"}},
 		input: func(n int) string { return strings.Repeat("R[1] ", n) + "C[1]\n" }},
 	{name: "yaml-instances", cmds: [][]string{{"write"}, {"write", "event"}, {"write", "parse"}, {"write", "conv", "-c", "cmt"}, {"write", "--track", "3"}},
